@@ -1387,6 +1387,11 @@ def cr_pairs():
     return out
 
 
+def aiohttp_client_error():
+    import aiohttp
+    return aiohttp.ClientError
+
+
 class CrBed:
     def __init__(self, loop, tmp):
         import aiohttp
@@ -1531,7 +1536,7 @@ class CrBed:
                 resp = await task
                 await resp.read()
                 resp.release()
-            except (ValueError, TypeError, RuntimeError, LookupError, OSError) as e:
+            except (ValueError, TypeError, RuntimeError, LookupError, OSError, aiohttp_client_error()) as e:
                 outcome = "raised:" + type(e).__name__
             for _ in range(5):
                 await aio.sleep(0)
